@@ -50,6 +50,15 @@ func quicBaseCases(c *ctxT, r *gen.R) {
 				}
 			}
 		}()
+		go func() {
+			for {
+				if err := b.ServeAsk(context.Background(), func(ctx context.Context, resp []byte, m p2p.Message[qAddr]) int {
+					return copy(resp, m.Payload) // echo
+				}); err != nil {
+					return
+				}
+			}
+		}()
 		dst := b.LocalAddrs()[0]
 		wctx, wcf := context.WithTimeout(context.Background(), 5*time.Second)
 		a.Tell(wctx, dst, p2p.IOVec{[]byte("warm-up")})
@@ -94,6 +103,30 @@ func quicBaseCases(c *ctxT, r *gen.R) {
 			intact = 2
 		}
 		mu.Unlock()
+		// the same sizes through Ask: the request and the echoed response are framed with a length prefix
+		asize := gen.Pick(r, []int{reported, reported - 1, reported + 1, 1 + r.Intn(2000)})
+		aseed := uint64(9500 + i)
+		req := patBytes(aseed, asize)
+		respBuf := make([]byte, reported)
+		actx, acf := context.WithTimeout(context.Background(), 10*time.Second)
+		an, aerr := a.Ask(actx, respBuf, dst, p2p.IOVec{req})
+		acf()
+		acls, anpk, alens, aintact := "ok", 1, sx.L(sx.I(asize)), 0
+		switch {
+		case aerr == nil:
+			if an == asize && string(respBuf[:an]) == string(req) {
+				aintact = 1
+			} else {
+				aintact = 2
+			}
+		case p2p.IsErrMTUExceeded(aerr):
+			acls, anpk, alens = "err", 0, sx.L()
+		default:
+			acls, anpk, alens = "other-error", 0, sx.L()
+		}
+		c.emit(sx.L(sx.S("stack"), sxZ(int64(reported)), sx.L(), sx.L(sx.S("pat"), sx.N(aseed), sx.I(asize))),
+			sx.L(sxZ(int64(reported)), sx.S(acls), sx.I(anpk), sx.I(1), alens, sx.I(aintact)))
+		c.count("stack/quic-base-ask/" + acls)
 		a.Close()
 		b.Close()
 		c.emit(sx.L(sx.S("stack"), sxZ(int64(reported)), sx.L(), sx.L(sx.S("pat"), sx.N(seed), sx.I(size))),
